@@ -526,8 +526,16 @@ class NoBroadcastEinsum(Contract):
             return
         # (1) no broadcast axes are left
         from pytato.array import _get_einsum_access_descr_to_axis_len
-        d2l = _get_einsum_access_descr_to_axis_len(new.access_descriptors,
-                                                   new.args)
+        try:
+            d2l = _get_einsum_access_descr_to_axis_len(
+                new.access_descriptors, new.args)
+            h.interp.getattr(new, "shape")
+        except EngineSignal:
+            raise
+        except Exception as e:  # noqa: BLE001
+            h.fail("no-broadcast.result-well-formed",
+                   f"{type(e).__name__}: {e}")
+            return
         for k, (arg, ds) in enumerate(zip(new.args, new.access_descriptors,
                                           strict=True)):
             for ax, d in enumerate(ds):
@@ -577,7 +585,7 @@ from pyvc.replaylib import M_from, mint, rnd, eval_array, reproduced
 M = M_from(MODEL)
 inst = {inst!r}
 ins, o, unit = inst["ins"], inst["out"], {{tuple(u) for u in inst["unit"]}}
-n = {{ch: max(2, mint(M, f"n_{{ch}}", 3)) for ch in set("".join(ins))}}
+n = {{ch: max(1, mint(M, f"n_{{ch}}", 3)) for ch in set("".join(ins))}}
 ops, data = [], {{}}
 for k, sp in enumerate(ins):
     shp = tuple(1 if (k, ax) in unit else n[ch] for ax, ch in enumerate(sp))
